@@ -11,6 +11,7 @@ CONSTANTS
   FixedT1 = {"otlp-http", "otlp-httpjson", "otlp-grpc"}
   LogPaths = {"otlp-logs"}
   MaxDrive = 1
+  Both = TRUE
   Refresh = "always"
 CHECK_DEADLOCK FALSE
 INVARIANTS TypeOK C21LiveBelongs C21LiveConfiguredOrder C21LiveRoot C21LiveHistoryFree ViewOK
